@@ -1165,3 +1165,402 @@ pub fn vp_roundtrip_pli(pli: &crate::PliBuilder, sender: u32, media: u32, paddin
 }
 
 } // verus!
+
+verus! {
+
+// ---- C13: trailing padding is transparent ----------------------------------------------------------------------
+/// RFC 3550 padding applied to an unpadded packet: P bit set, length field enlarged by n/4 words, n-1 zero octets and the count
+pub open spec fn padded(s: Seq<u8>, n: int) -> Seq<u8> {
+    let words = (s.len() + n) / 4 - 1;
+    s.update(0, (s[0] as int + 32) as u8).update(2, (words / 256) as u8).update(3, (words % 256) as u8) + img_padding(n)
+}
+
+pub open spec fn legal_padding(n: int) -> bool {
+    4 <= n <= 252 && n % 4 == 0
+}
+
+#[verifier::spinoff_prover]
+pub proof fn lemma_padded(s: Seq<u8>, n: int, pt: int, min: int)
+    requires
+        framed(s, pt, min),
+        !hdr_pad(s),
+        legal_padding(n),
+        s.len() + n <= MAX_RTCP_BYTES,
+        min >= 4,
+    ensures
+        ({
+            let t = padded(s, n);
+            &&& t.len() == s.len() + n
+            &&& framed(t, pt, min)
+            &&& hdr_pad(t)
+            &&& pad_count(t) == n
+            &&& pad_count(s) == 0
+            &&& hdr_count(t) == hdr_count(s)
+            &&& t[t.len() - 1] == n
+            &&& forall|i: int| 4 <= i < s.len() ==> #[trigger] t[i] == s[i]
+            &&& t[1] == s[1]
+        }),
+{
+    let t = padded(s, n);
+    lemma_padding_img(n);
+    let words = (s.len() + n) / 4 - 1;
+    assert(0 <= words < 65536);
+    assert(words == (words / 256) * 256 + words % 256);
+    assert(t[0] == (s[0] as int + 32) as u8);
+    assert(s[0] as int / 64 == 2 && (s[0] as int / 32) % 2 == 0);
+    assert(t[t.len() - 1] == img_padding(n)[n - 1]);
+}
+
+pub proof fn lemma_padded_read32(s: Seq<u8>, n: int, o: int)
+    requires
+        s.len() >= 4,
+        legal_padding(n),
+        4 <= o,
+        o + 4 <= s.len(),
+    ensures
+        be32(padded(s, n), o) == be32(s, o),
+{
+    lemma_padding_img(n);
+}
+
+pub proof fn lemma_padded_sub(s: Seq<u8>, n: int, a: int, b: int)
+    requires
+        s.len() >= 4,
+        legal_padding(n),
+        4 <= a <= b <= s.len(),
+    ensures
+        padded(s, n).subrange(a, b) == s.subrange(a, b),
+{
+    lemma_padding_img(n);
+    assert(padded(s, n).subrange(a, b) =~= s.subrange(a, b));
+}
+
+// @LEMMA C13
+pub proof fn lemma_pad_transparent_sr(s: Seq<u8>, n: int)
+    requires
+        sr_ok(s),
+        !hdr_pad(s),
+        legal_padding(n),
+        s.len() + n <= MAX_RTCP_BYTES,
+    ensures
+        ({
+            let t = padded(s, n);
+            &&& sr_ok(t)
+            &&& pad_count(t) == n && hdr_pad(t) && t[t.len() - 1] == n
+            &&& hdr_count(t) == hdr_count(s)
+            &&& be32(t, 4) == be32(s, 4) && be64(t, 8) == be64(s, 8) && be32(t, 16) == be32(s, 16) && be32(t, 20) == be32(s, 20) && be32(t, 24) == be32(s, 24)
+            &&& forall|i: int| 0 <= i < hdr_count(s) ==> #[trigger] report_block_bytes(t, 28, i) == report_block_bytes(s, 28, i)
+        }),
+{
+    let t = padded(s, n);
+    lemma_padded(s, n, 200, 28);
+    lemma_padded_read32(s, n, 4);
+    lemma_padded_read32(s, n, 8);
+    lemma_padded_read32(s, n, 12);
+    lemma_padded_read32(s, n, 16);
+    lemma_padded_read32(s, n, 20);
+    lemma_padded_read32(s, n, 24);
+    assert forall|i: int| 0 <= i < hdr_count(s) implies #[trigger] report_block_bytes(t, 28, i) == report_block_bytes(s, 28, i) by {
+        lemma_padded_sub(s, n, 28 + 24 * i, 28 + 24 * i + 24);
+    }
+}
+
+// @LEMMA C13
+pub proof fn lemma_pad_transparent_rr(s: Seq<u8>, n: int)
+    requires
+        rr_ok(s),
+        !hdr_pad(s),
+        legal_padding(n),
+        s.len() + n <= MAX_RTCP_BYTES,
+    ensures
+        ({
+            let t = padded(s, n);
+            &&& rr_ok(t)
+            &&& pad_count(t) == n && hdr_pad(t) && t[t.len() - 1] == n
+            &&& hdr_count(t) == hdr_count(s)
+            &&& be32(t, 4) == be32(s, 4)
+            &&& forall|i: int| 0 <= i < hdr_count(s) ==> #[trigger] report_block_bytes(t, 8, i) == report_block_bytes(s, 8, i)
+        }),
+{
+    let t = padded(s, n);
+    lemma_padded(s, n, 201, 8);
+    lemma_padded_read32(s, n, 4);
+    assert forall|i: int| 0 <= i < hdr_count(s) implies #[trigger] report_block_bytes(t, 8, i) == report_block_bytes(s, 8, i) by {
+        lemma_padded_sub(s, n, 8 + 24 * i, 8 + 24 * i + 24);
+    }
+}
+
+// @LEMMA C13
+pub proof fn lemma_pad_transparent_app(s: Seq<u8>, n: int)
+    requires
+        app_ok(s),
+        !hdr_pad(s),
+        legal_padding(n),
+        s.len() + n <= MAX_RTCP_BYTES,
+    ensures
+        ({
+            let t = padded(s, n);
+            &&& app_ok(t)
+            &&& pad_count(t) == n && hdr_pad(t) && t[t.len() - 1] == n
+            &&& hdr_count(t) == hdr_count(s)
+            &&& be32(t, 4) == be32(s, 4)
+            &&& t.subrange(8, 12) == s.subrange(8, 12)
+            &&& app_data(t) == app_data(s)
+        }),
+{
+    let t = padded(s, n);
+    lemma_padded(s, n, 204, 12);
+    lemma_padded_read32(s, n, 4);
+    lemma_padded_sub(s, n, 8, 12);
+    lemma_padded_sub(s, n, 12, s.len() as int);
+}
+
+// @LEMMA C13
+pub proof fn lemma_pad_transparent_bye(s: Seq<u8>, n: int)
+    requires
+        bye_wf(s),
+        !hdr_pad(s),
+        legal_padding(n),
+        s.len() + n <= MAX_RTCP_BYTES,
+    ensures
+        ({
+            let t = padded(s, n);
+            &&& bye_wf(t)
+            &&& pad_count(t) == n && hdr_pad(t) && t[t.len() - 1] == n
+            &&& hdr_count(t) == hdr_count(s)
+            &&& 4 + 4 * hdr_count(t) + pad_count(t) <= t.len()
+            &&& forall|i: int| 0 <= i < hdr_count(s) ==> #[trigger] bye_ssrc(t, i) == bye_ssrc(s, i)
+            &&& bye_reason(t) == bye_reason(s)
+        }),
+{
+    let t = padded(s, n);
+    lemma_padded(s, n, 203, 4);
+    let off = 4 + 4 * hdr_count(s);
+    assert forall|i: int| 0 <= i < hdr_count(s) implies #[trigger] bye_ssrc(t, i) == bye_ssrc(s, i) by {
+        lemma_padded_read32(s, n, 4 + 4 * i);
+    }
+    if s.len() > off {
+        assert(t[off] == s[off]);
+        lemma_padded_sub(s, n, off + 1, off + 1 + s[off]);
+    }
+}
+
+// @LEMMA C13
+pub proof fn lemma_pad_transparent_fb(s: Seq<u8>, n: int, pt: int)
+    requires
+        fb_ok(s, pt),
+        !hdr_pad(s),
+        legal_padding(n),
+        s.len() + n <= MAX_RTCP_BYTES,
+    ensures
+        ({
+            let t = padded(s, n);
+            &&& fb_ok(t, pt)
+            &&& pad_count(t) == n && hdr_pad(t) && t[t.len() - 1] == n
+            &&& hdr_count(t) == hdr_count(s)
+            &&& be32(t, 4) == be32(s, 4) && be32(t, 8) == be32(s, 8)
+            &&& fb_fci(t) == fb_fci(s)
+        }),
+{
+    let t = padded(s, n);
+    lemma_padded(s, n, pt, 12);
+    lemma_padded_read32(s, n, 4);
+    lemma_padded_read32(s, n, 8);
+    lemma_padded_sub(s, n, 12, s.len() as int);
+}
+
+pub proof fn lemma_sdes_chunks_same(s: Seq<u8>, t: Seq<u8>, c: int, end: int)
+    requires
+        4 <= c <= end,
+        end <= s.len(),
+        end <= t.len(),
+        forall|i: int| 4 <= i < end ==> t[i] == s[i],
+    ensures
+        sdes_chunks(t, c, end) == sdes_chunks(s, c, end),
+    decreases end - c,
+{
+    if c < end {
+        assert(t.subrange(c, end) =~= s.subrange(c, end));
+        match chunk_accept(s.subrange(c, end)) {
+            Some((st, m)) => {
+                if m > 0 && c + m <= end {
+                    lemma_sdes_chunks_same(s, t, c + m, end);
+                }
+            },
+            None => {},
+        }
+    }
+}
+
+// @LEMMA C13
+pub proof fn lemma_pad_transparent_sdes(s: Seq<u8>, n: int)
+    requires
+        crate::sdes::sdes_accept(s),
+        !hdr_pad(s),
+        legal_padding(n),
+        s.len() + n <= MAX_RTCP_BYTES,
+    ensures
+        ({
+            let t = padded(s, n);
+            &&& crate::sdes::sdes_accept(t)
+            &&& pad_count(t) == n && hdr_pad(t) && t[t.len() - 1] == n
+            &&& sdes_body_end(t) == sdes_body_end(s)
+            &&& sdes_chunks(t, 4, sdes_body_end(t)) == sdes_chunks(s, 4, sdes_body_end(s))
+            &&& forall|c: int| 4 <= c <= s.len() ==> #[trigger] t.subrange(c, sdes_body_end(t)) == s.subrange(c, sdes_body_end(s))
+        }),
+{
+    let t = padded(s, n);
+    lemma_padded(s, n, 202, 4);
+    lemma_sdes_chunks_same(s, t, 4, s.len() as int);
+    assert forall|c: int| 4 <= c <= s.len() implies #[trigger] t.subrange(c, sdes_body_end(t)) == s.subrange(c, sdes_body_end(s)) by {
+        lemma_padded_sub(s, n, c, s.len() as int);
+    }
+}
+
+} // verus!
+
+verus! {
+
+/// C13 as verified programs over the real parsers: parse a packet and its padded version, compare every content accessor
+// @LEMMA C13
+pub fn vp_pad_transparent_app(a: &[u8], b: &[u8], n: u8)
+    requires
+        app_ok(a@),
+        !hdr_pad(a@),
+        legal_padding(n as int),
+        a@.len() + n <= MAX_RTCP_BYTES,
+        b@ == padded(a@, n as int),
+{
+    proof {
+        lemma_pad_transparent_app(a@, n as int);
+    }
+    let pa = crate::App::parse(a);
+    let pb = crate::App::parse(b);
+    assert(pa is Ok && pb is Ok);
+    let pa = pa.unwrap();
+    let pb = pb.unwrap();
+    let (sa, sb) = (pa.ssrc(), pb.ssrc());
+    let (ta, tb) = (pa.subtype(), pb.subtype());
+    let (na, nb) = (pa.name(), pb.name());
+    let (da, db) = (pa.data(), pb.data());
+    let padb = pb.padding();
+    assert(sa == sb && ta == tb && na@ == nb@ && da@ == db@);
+    assert(padb == Some(n));
+}
+
+// @LEMMA C13
+pub fn vp_pad_transparent_bye(a: &[u8], b: &[u8], n: u8)
+    requires
+        bye_wf(a@),
+        !hdr_pad(a@),
+        legal_padding(n as int),
+        a@.len() + n <= MAX_RTCP_BYTES,
+        b@ == padded(a@, n as int),
+{
+    proof {
+        lemma_pad_transparent_bye(a@, n as int);
+    }
+    let pa = crate::Bye::parse(a);
+    let pb = crate::Bye::parse(b);
+    assert(pa is Ok && pb is Ok);
+    let pa = pa.unwrap();
+    let pb = pb.unwrap();
+    let padb = pb.padding();
+    assert(padb == Some(n));
+    let (ra, rb) = (pa.reason(), pb.reason());
+    assert(ra is Some <==> rb is Some);
+    assert(ra is Some ==> ra->Some_0@ == rb->Some_0@);
+    let (ia, ib) = (pa.ssrcs(), pb.ssrcs());
+    assert(iter_view(&ia).len() == iter_view(&ib).len());
+    assert forall|i: int| 0 <= i < iter_view(&ia).len() implies #[trigger] iter_view(&ia)[i] == iter_view(&ib)[i] by {
+        assert(bye_ssrc(b@, i) == bye_ssrc(a@, i));
+    }
+}
+
+// @LEMMA C13
+pub fn vp_pad_transparent_sr(a: &[u8], b: &[u8], n: u8)
+    requires
+        sr_ok(a@),
+        !hdr_pad(a@),
+        legal_padding(n as int),
+        a@.len() + n <= MAX_RTCP_BYTES,
+        b@ == padded(a@, n as int),
+{
+    proof {
+        lemma_pad_transparent_sr(a@, n as int);
+    }
+    let pa = crate::SenderReport::parse(a);
+    let pb = crate::SenderReport::parse(b);
+    assert(pa is Ok && pb is Ok);
+    let pa = pa.unwrap();
+    let pb = pb.unwrap();
+    let padb = pb.padding();
+    assert(padb == Some(n));
+    let (x1, y1) = (pa.ssrc(), pb.ssrc());
+    let (x2, y2) = (pa.ntp_timestamp(), pb.ntp_timestamp());
+    let (x3, y3) = (pa.rtp_timestamp(), pb.rtp_timestamp());
+    let (x4, y4) = (pa.packet_count(), pb.packet_count());
+    let (x5, y5) = (pa.octet_count(), pb.octet_count());
+    assert(x1 == y1 && x2 == y2 && x3 == y3 && x4 == y4 && x5 == y5);
+    let (ia, ib) = (pa.report_blocks(), pb.report_blocks());
+    assert(iter_view(&ia).len() == iter_view(&ib).len());
+    assert forall|i: int| 0 <= i < iter_view(&ia).len() implies (#[trigger] iter_view(&ia)[i]).data@ == iter_view(&ib)[i].data@ by {
+        assert(report_block_bytes(b@, 28, i) == report_block_bytes(a@, 28, i));
+    }
+}
+
+// @LEMMA C13
+pub fn vp_pad_transparent_pfb<'a, F: crate::FciParser<'a>>(a: &'a [u8], b: &'a [u8], n: u8)
+    requires
+        fb_ok(a@, 206),
+        !hdr_pad(a@),
+        legal_padding(n as int),
+        a@.len() + n <= MAX_RTCP_BYTES,
+        b@ == padded(a@, n as int),
+{
+    proof {
+        lemma_pad_transparent_fb(a@, n as int, 206);
+    }
+    let pa = crate::PayloadFeedback::parse(a);
+    let pb = crate::PayloadFeedback::parse(b);
+    assert(pa is Ok && pb is Ok);
+    let pa = pa.unwrap();
+    let pb = pb.unwrap();
+    let padb = pb.padding();
+    assert(padb == Some(n));
+    let (x1, y1) = (pa.sender_ssrc(), pb.sender_ssrc());
+    let (x2, y2) = (pa.media_ssrc(), pb.media_ssrc());
+    assert(x1 == y1 && x2 == y2);
+    let fa = pa.parse_fci::<F>();
+    let fb = pb.parse_fci::<F>();
+    // same outcome, and on success both FCI values were parsed from the same FCI octets
+    assert(fa is Ok <==> fb is Ok);
+    assert(fa is Ok ==> fa->Ok_0.fci_bytes() == fb->Ok_0.fci_bytes());
+}
+
+// @LEMMA C13
+pub fn vp_pad_transparent_tfb<'a, F: crate::FciParser<'a>>(a: &'a [u8], b: &'a [u8], n: u8)
+    requires
+        fb_ok(a@, 205),
+        !hdr_pad(a@),
+        legal_padding(n as int),
+        a@.len() + n <= MAX_RTCP_BYTES,
+        b@ == padded(a@, n as int),
+{
+    proof {
+        lemma_pad_transparent_fb(a@, n as int, 205);
+    }
+    let pa = crate::TransportFeedback::parse(a);
+    let pb = crate::TransportFeedback::parse(b);
+    assert(pa is Ok && pb is Ok);
+    let pa = pa.unwrap();
+    let pb = pb.unwrap();
+    let padb = pb.padding();
+    assert(padb == Some(n));
+    let fa = pa.parse_fci::<F>();
+    let fb = pb.parse_fci::<F>();
+    assert(fa is Ok <==> fb is Ok);
+    assert(fa is Ok ==> fa->Ok_0.fci_bytes() == fb->Ok_0.fci_bytes());
+}
+
+} // verus!
